@@ -176,9 +176,16 @@ class PropertyDescriptor(Symbol):
          relation).
         :param inferred: Whether the relation is inferred or not.
         """
-        if domain_value and range_value:
-            # not make_set: equal but distinct range values each need their own relation
-            for v in make_list(range_value):
+        # not the truth value: an instance that is falsy (it defines __len__ or __bool__) is an instance like any other
+        if domain_value is not None and range_value is not None:
+            # not make_set: equal but distinct range values each need their own relation;
+            # a single value that happens to be iterable itself is a single value
+            range_values = (
+                [range_value]
+                if isinstance(range_value, Symbol)
+                else make_list(range_value)
+            )
+            for v in range_values:
                 PropertyDescriptorRelation(
                     domain_value, v, self.wrapped_field, inferred=inferred
                 ).add_to_graph()
